@@ -47,6 +47,26 @@ C = {
    text="Lean theorems over a model of frontend/http/writer.go producing the value handed to the bencode encoder: for every valid response the announce value (compact or dictionary form) is a well-formed dictionary with distinct keys holding exactly complete, incomplete, interval and min interval in whole seconds, peers = the IPv4 peers as 6-byte entries / peers6 = the IPv6 peers as 18-byte entries (present iff non-empty; client-side uncompact returns exactly the peers) or the list of (peer id, textual address, port) dictionaries v4 then v6; scrape maps each distinct infohash to its counts (repeats collapse); failures carry the client message or one fixed generic message (identical for all internal errors). With C19: whatever the entry order, a client decodes the body to that value with nothing left over and lookups do not depend on the order. Tied by differential runs decoding the real bodies with an independent client library (which also insists on sorted keys).",
    note="trusted: Lean kernel + 3 standard axioms; harness; anacrolix/torrent/bencode as the independent client; net.IP.String passed to the model; sortedness of keys (BEP 3) is checked by the independent decoder on every case, not by a theorem",
    tech="Lean 4 proof (well-formedness + field lookups of the response value, permutation invariance, C19 round trip) + differential correspondence through an independent decoder"),
+ "C01": dict(
+   text="Lean refinement proof for the memory store model (2n shards, Go maps as association lists, per-shard counters, dropping of empty swarms): every operation (put seeder/leecher, graduate, deletes incl. not-found, expiry) changes the view (infohash, family) -> (seeders, leechers) exactly as a one-line specification says; by induction the view after ANY finite history, for any shard count, is the fold of the specification; scrape counts are exactly the set sizes; a swarm is unknown iff empty; an announce applied to the swarm sets exactly one role (seeder iff completed or left=0, leecher otherwise, none after stopped) with mtime = clock. The Redis store is an executable model over a modelled Redis command set tied by the same differential streams (1-3 instances sharing one Redis), with the full store state incl. counters dumped and compared after every mutating step.",
+   note="trusted: Lean kernel + 3 standard axioms; harness + shims; Redis semantics as modelled (miniredis); no storage failures; the announce-response count bump when the selection is empty (D2) is a recorded known finding of the tracker-level stream, not covered by the store-level statement",
+   tech="Lean 4 refinement proof (invariant + pointwise-update lemmas, induction over histories) + differential correspondence with full-state dumps against both real stores"),
+ "C02": dict(
+   text="Lean theorem: for EVERY iteration order of the seeder and leecher maps (any permutations), every numwant and every announcer (member or not, seeder or leecher) the selection loop returns a duplicate-free list of members of the announced swarm: a seeder gets min(numwant,|L|) leechers; a leecher gets min(numwant,|S|) seeders first, then min(rest,|L minus self|) other leechers and never itself; applies to every state satisfying the store invariant (all reachable states); numwant is the default when absent and capped at the maximum; an empty selection yields just the announcer. validSelection is the executable form of the statement and is what the harness evaluates on the lists the real memory and Redis stores return.",
+   note="trusted: Lean kernel + 3 standard axioms; harness + shims; the state the lists are judged against is the model's state (kept equal to the real store's by the dumps of the same stream)",
+   tech="Lean 4 proof over all permutations + proved executable oracle evaluated on real store outputs"),
+ "C03": dict(
+   text="Lean theorems: an operation for one address family leaves every view and scrape of the other family unchanged, for any infohash incl. the same one with equal peer ID and port (frame lemma from the C01 refinement); answers for family f are functions of the f-view; the response hook fills only the requester-family list; writers emit 6-byte entries under peers / 18-byte under peers6, own-family textual addresses in dictionary form, and 6/18-byte UDP entries by requester family (C08/C09 theorems). Tied by store streams mixing IPv4/IPv6 peers on shared infohashes over several shard counts, both stores, and the writer streams.",
+   note="trusted: as C01, C08, C09; IPv4-mapped IPv6 source addresses are folded by SanitizeAnnounce (C06/C07 theorems) before the store is reached",
+   tech="Lean 4 proof (frame lemma of the refinement; writer width theorems) + differential correspondence"),
+ "C05": dict(
+   text="Lean theorems (memory store): after a pass with cutoff T a peer is a member with time t iff it was one with that t and t > T — for every swarm, family and population; swarms left empty become unknown and scrape 0/0; after an announce at clock c no pass with T < c removes the membership it created (a re-announce restarts the lifetime); each per-swarm step of the pass (the unit that interleaves with other requests under the shard lock) keeps every entry newer than the cutoff. Redis store: executable model, tied by the same streams with cutoffs at mtime-1/mtime/mtime+1.",
+   note="trusted: as C01; the concurrent statement for the memory store rests on C04 (steps under the shard lock are atomic); for Redis the pass is NOT atomic per key (HGETALL...HDEL race, D4) — recorded as a known finding under C04/C05-redis once the concurrent stream exists; mtime is the cached clock",
+   tech="Lean 4 proof (exact characterisation of expiry on the refinement view) + differential correspondence with full-state dumps"),
+ "C17": dict(
+   text="Lean invariant proof (memory store): in every reachable state — any shard count, any history of puts incl. repeated ones, deletes of absent peers, graduation, expiry of whole swarms — each shard's seeder and leecher counters equal the number of memberships it stores, as integers (so the uint64 never goes below zero or wraps), and the exported totals are the sums over the shards. Redis: executable model of the counter protocol, compared (counters and gauges) after every mutating step incl. several instances.",
+   note="trusted: as C01; 'every instant a reader can observe' rests on C04 (counters change only inside the shard's write section); Redis counters are claimed at quiescent points only",
+   tech="Lean 4 invariant proof by induction over operations + differential correspondence reading counters and Prometheus gauges after every step"),
 }
 
 def main():
